@@ -42,6 +42,7 @@ type val struct {
 	cmp  string       // for vBool with lin: the comparison `lin cmp 0` it stands for
 	cnam string       // … and, when one side is a named constant of an enumeration type, that name
 	nn   bool         // known not to be nil (a package-level singleton that is never reassigned)
+	fnv  *types.Func  // a package-level function used as a value (called through a parameter of a helper)
 }
 
 func unk(desc string) val { return val{kind: vUnknown, desc: desc} }
@@ -1352,6 +1353,11 @@ func (se *symExec) eval(e ast.Expr, st *sstate) []ev {
 			if v, ok := st.vars[obj]; ok {
 				return one(st, se.symInt(e, v))
 			}
+			if f, ok := obj.(*types.Func); ok {
+				v := unk(FuncID(f))
+				v.fnv = f
+				return one(st, v)
+			}
 			nm := x.Name
 			if p, ok := se.params[obj]; ok && se.tableMode {
 				nm = p // the canonical name of a parameter, receiver or alias
@@ -1375,7 +1381,11 @@ func (se *symExec) eval(e ast.Expr, st *sstate) []ev {
 		}
 		// field read: evaluate the base for effects
 		if _, isPkg := se.info.Uses[identOf(x.X)].(*types.PkgName); isPkg {
-			return one(st, unk(se.canon(x)))
+			v := unk(se.canon(x))
+			if f, ok := se.info.Uses[x.Sel].(*types.Func); ok {
+				v.fnv = f // py.Add handed to a helper as a value
+			}
+			return one(st, v)
 		}
 		var out []ev
 		for _, r := range se.eval(x.X, st) {
@@ -2456,6 +2466,14 @@ func (se *symExec) evalCallMulti(call *ast.CallExpr, st *sstate) []pathResult {
 		}
 	}
 	fn := Callee(info, call)
+	if fn == nil {
+		// a call through a variable that holds a named function (`op(a, b)` with op bound to py.Add by the caller)
+		if id := identOf(call.Fun); id != nil {
+			if fv, ok := st.vars[info.Uses[id]]; ok && fv.fnv != nil {
+				fn = fv.fnv
+			}
+		}
+	}
 	// receiver + args in evaluation order
 	var recvExpr ast.Expr
 	if sel, ok := unparen(call.Fun).(*ast.SelectorExpr); ok {
